@@ -682,7 +682,10 @@ namespace
                     {
                         if (res->data<d_boolean, bool>())
                         {
-                            m_out.push_back(m_array->at(m_index));
+                            if (m_index < m_array->size())
+                            { // the code may have shortened the array below the element it was called for
+                                m_out.push_back(m_array->at(m_index));
+                            }
                         }
                     }
                     else if (res->empty())
